@@ -9,7 +9,7 @@
       geometry (floor binning, fmod, cos, margin walk = chunks.getbounds / chunks.get) is NOT modelled:
       the model receives per list-2 point the value getbounds returned (or None when it raised) and per
       list-1 point the cell get returned.  What the geometry must satisfy is the hypothesis `coverage`. *)
-From Coq Require Import ZArith QArith List Bool Arith Sorted.
+From Coq Require Import ZArith QArith Qround List Bool Arith Sorted.
 Import ListNotations.
 Close Scope Q_scope. Close Scope Z_scope. Open Scope nat_scope.
 
@@ -259,6 +259,50 @@ Definition run_case (c : case) : Z :=
    (if match_ok n1 (c_n2 c) (sep_of (c_sep c)) (c_L c) (c_maxmatch c) (c_out c) then 0 else 2))%Z.
 
 Definition run_cases (cs : list case) : list Z := map run_case cs.
+
+(* ------------------------------------------------------------------ L3, discrete half (exact rationals)
+   the slice / cell walks of chunks.getbounds, the cell-index arithmetic of getbounds / get and the padding of
+   chunks.__init__, with the bounds as data.  The floating-point evaluation of the same expressions, fmod and
+   the raOffset rotation are NOT modelled (see notes/C04.md). *)
+Definition qbnd (B : list Q) (i : nat) : Q := nth i B 0%Q.
+
+(* while dec - decBounds[decChunkMin] < marginSize and decChunkMin > 0: decChunkMin -= 1 *)
+Fixpoint dec_down (B : list Q) (dec m : Q) (c : nat) : nat :=
+  match c with
+  | O => O
+  | S c' => if Qlt_bool (dec - qbnd B (S c')) m then dec_down B dec m c' else S c'
+  end.
+(* while decBounds[decChunkMax+1] - dec < marginSize and decChunkMax < nDec - 1: decChunkMax += 1 *)
+Fixpoint dec_up (B : list Q) (dec m : Q) (nDec fuel c : nat) : nat :=
+  match fuel with
+  | O => c
+  | S f => if Qlt_bool (qbnd B (S c) - dec) m && (S c <? nDec) then dec_up B dec m nDec f (S c) else c
+  end.
+(* the RA walks (they may leave the slice by one cell: -1 and nRa are wrapped by assign) *)
+Fixpoint ra_down (B : list Q) (ra mg : Q) (c : nat) : Z :=
+  match c with
+  | O => if Qlt_bool (ra - qbnd B 0) mg then (-1)%Z else 0%Z
+  | S c' => if Qlt_bool (ra - qbnd B (S c')) mg then ra_down B ra mg c' else Z.of_nat (S c')
+  end.
+Fixpoint ra_up (B : list Q) (ra mg : Q) (n fuel c : nat) : Z :=
+  match fuel with
+  | O => Z.of_nat c
+  | S f => if (c <? n) && Qlt_bool (qbnd B (S c) - ra) mg then ra_up B ra mg n f (S c) else Z.of_nat c
+  end.
+
+(* int(floor((x - bounds[0]) * n / (bounds[n] - bounds[0]))) *)
+Definition cell_index (x lo hi : Q) (n : nat) : Z :=
+  Qfloor ((x - lo) * inject_Z (Z.of_nat n) / (hi - lo)).
+(* lo + (hi - lo) * k / n *)
+Definition ebnd (lo hi : Q) (n k : nat) : Q := lo + (hi - lo) * inject_Z (Z.of_nat k) / inject_Z (Z.of_nat n).
+
+(* nDec = 3 + floor(range/minSize); padded range; padded lower end (chunks.__init__, both for Dec and per-slice RA) *)
+Definition pad_n (a b w : Q) : nat := (3 + Z.to_nat (Qfloor ((b - a) / w)))%nat.
+Definition pad_lo (a b w : Q) : Q := a - (1 # 2) * (w * inject_Z (Z.of_nat (pad_n a b w)) - b + a).
+Definition pad_hi (a b w : Q) : Q := pad_lo a b w + w * inject_Z (Z.of_nat (pad_n a b w)).
+(* declination: clamp to +-90 when closer than three cells *)
+Definition dec_lo (a b w : Q) : Q := if Qlt_bool (pad_lo a b w) (-(90) + 3 * w) then -(90) else pad_lo a b w.
+Definition dec_hi (a b w : Q) : Q := if Qlt_bool (90 - 3 * w) (pad_hi a b w) then 90 else pad_hi a b w.
 
 (* constructors used by the harness (all numerals are written as Z / positive literals) *)
 (* m * 2^e: a double, written with short literals (big decimal literals are slow to parse) *)
